@@ -56,7 +56,7 @@ pub fn run(rep: &mut Report) {
         writes / two random short-write sinks that split inside code points / message Display in several pieces) which must all \
         agree with the reference pad(cut(text,M),m); non-trivial = some spec has a width; distinct = (pattern, message, target)".to_owned();
     rep.assume("lengths are counted in Unicode scalar values, as the statement says (combining marks count separately)");
-    let n = if rep.tier == "thorough" { 300_000 } else { 15_000 };
+    let n = if rep.tier == "thorough" { 2_000_000 } else { 150_000 };
     run_cases(rep, "spec", n, |rep, rng, idx| {
         let nodes = gen_spec_nodes(rng, 0);
         let pattern = print(&nodes, rng, false);
